@@ -66,6 +66,26 @@ theorem apply_deterministic (w1 w2 : World) (q1 q2 : QueryId) (v : Json) (e1 e2 
     (w1.step (.apply q1 v)).2 = (w2.step (.apply q2 v)).2 := by
   rw [apply_out_eq w1 q1 v e1 ast env h1 g1, apply_out_eq w2 q2 v e2 ast env h2 g2]
 
+/-- the same, with the reporting function named -/
+theorem apply_out (w : World) (q : QueryId) (v : Json) (e : EnvId) (ast : Query) (env : Env)
+    (h : w.query q = some (e, ast)) (g : w.env e = some env) :
+    (w.step (.apply q v)).2 = Out.ofOutcome (Api.queryFind env ast v) := by
+  rw [apply_out_eq w q v e ast env h g]
+  cases Api.queryFind env ast v <;> rfl
+
+theorem envFind_out (w : World) (e : EnvId) (s : Str) (v : Json) (env : Env) (g : w.env e = some env) :
+    (w.step (.envFind e s v)).2 = Out.ofOutcome (Api.envFind env s v) := by
+  simp only [World.step, g]
+  cases Api.envFind env s v <;> rfl
+
+theorem compile_out (w : World) (e : EnvId) (s : Str) (env : Env) (g : w.env e = some env) :
+    (w.step (.compile e s)).2 =
+      (match Impl.compile env s with
+       | .ok _ => Out.compiled w.queries.length
+       | .error err => Out.raised err.kind) := by
+  simp only [World.step, g]
+  cases Impl.compile env s <;> rfl
+
 /-! ### frames -/
 
 theorem find_setEnv_ne (l : List (EnvId × Env)) (e e' : EnvId) (x : Env) (h : e' ≠ e) :
@@ -104,6 +124,49 @@ theorem frame_register (w : World) (e e' : EnvId) (name : Str) (f : Func) (h : e
   split
   · rfl
   · exact find_setEnv_ne w.envs e e' _ h
+
+theorem find_setEnv_eq (l : List (EnvId × Env)) (e : EnvId) (x : Env)
+    (h : (l.find? (·.1 = e)).isSome) :
+    ((setEnv l e x).find? (·.1 = e)).map (·.2) = some x := by
+  induction l with
+  | nil => cases h
+  | cons p l ih =>
+    unfold setEnv at ih ⊢
+    rw [List.map_cons]
+    by_cases hp : p.1 = e
+    · rw [if_pos hp]
+      simp only [List.find?_cons, decide_true, Option.map_some]
+    · rw [if_neg hp]
+      simp only [List.find?_cons, hp, decide_false] at h ⊢
+      exact ih h
+
+theorem frame_configure (w : World) (e e' : EnvId) (md lo hi : Int) (h : e' ≠ e) :
+    ((w.step (.configure e md lo hi)).1).env e' = w.env e' := by
+  simp only [World.step]
+  split
+  · rfl
+  · exact find_setEnv_ne w.envs e e' _ h
+
+theorem configure_queries (w : World) (e : EnvId) (md lo hi : Int) :
+    ((w.step (.configure e md lo hi)).1).queries = w.queries := by
+  simp only [World.step]
+  split <;> rfl
+
+/-- `configure` sets exactly the three limits of `e`, keeping its registry and mode -/
+theorem configure_env (w : World) (e : EnvId) (md lo hi : Int) (env : Env) (g : w.env e = some env) :
+    ((w.step (.configure e md lo hi)).1).env e =
+      some { env with maxDepth := md, minIdx := lo, maxIdx := hi } := by
+  simp only [World.step, g]
+  show ((setEnv w.envs e _).find? (·.1 = e)).map (·.2) = _
+  apply find_setEnv_eq
+  unfold World.env at g
+  cases h' : w.envs.find? (·.1 = e) with
+  | none => rw [h'] at g; cases g
+  | some a => rfl
+
+theorem configure_out (w : World) (e : EnvId) (md lo hi : Int) :
+    (w.step (.configure e md lo hi)).2 = (match w.env e with | some _ => Out.unit | none => Out.noSuch) := by
+  cases h : w.env e <;> simp only [World.step, h]
 
 theorem find_append_of_isSome {α : Type} (p : α → Bool) (l l' : List α) (h : (l.find? p).isSome) :
     (l ++ l').find? p = l.find? p := by
@@ -154,29 +217,40 @@ theorem apply_out_congr (w1 w2 : World) (q : QueryId) (v : Json) (e : EnvId) (as
     simp only [World.step, h1, h2, g, g']
     cases Api.queryFind env ast v <;> rfl
 
-theorem step_preserve (w : World) (op : Op) (q : QueryId) (e : EnvId) (ast : Query)
-    (hw : w.WF) (hq : w.query q = some (e, ast)) (hop : ∀ name f, op ≠ .register e name f) :
-    (w.step op).1.WF ∧ (w.step op).1.query q = some (e, ast) ∧ (w.step op).1.env e = w.env e := by
-  have hlt : e < w.envs.length := by
-    unfold World.query at hq
-    cases h' : w.queries.find? (·.1 = q) with
-    | none => rw [h'] at hq; cases hq
-    | some a =>
-      rw [h'] at hq
-      have := hw.2.2 a (List.mem_of_find?_eq_some h')
-      simp at hq
-      rw [hq] at this
-      exact this
+theorem query_env_lt (w : World) (hw : w.WF) (q : QueryId) (e : EnvId) (ast : Query)
+    (hq : w.query q = some (e, ast)) : e < w.envs.length := by
+  unfold World.query at hq
+  cases h' : w.queries.find? (·.1 = q) with
+  | none => rw [h'] at hq; cases hq
+  | some a =>
+    rw [h'] at hq
+    have := hw.2.2 a (List.mem_of_find?_eq_some h')
+    simp at hq
+    rw [hq] at this
+    exact this
+
+theorem WF_setEnv (w : World) (hw : w.WF) (e : EnvId) (x : Env) :
+    World.WF { w with envs := setEnv w.envs e x } := by
+  refine ⟨?_, hw.2.1, ?_⟩
+  · show (setEnv w.envs e x).map (·.1) = List.range (setEnv w.envs e x).length
+    rw [map_fst_setEnv, hw.1]
+    simp [setEnv]
+  · intro y hy
+    have := hw.2.2 y hy
+    simpa [setEnv] using this
+
+/-- well-formedness is preserved by EVERY operation -/
+theorem step_WF (w : World) (op : Op) (hw : w.WF) : (w.step op).1.WF := by
   cases op with
   | compile e' s =>
     cases he : w.env e' with
-    | none => simp only [World.step, he]; exact ⟨hw, hq, trivial⟩
+    | none => simp only [World.step, he]; exact hw
     | some env =>
       cases hc : Impl.compile env s with
-      | error err => simp only [World.step, he, hc]; exact ⟨hw, hq, trivial⟩
+      | error err => simp only [World.step, he, hc]; exact hw
       | ok ast' =>
         simp only [World.step, he, hc]
-        refine ⟨⟨hw.1, ?_, ?_⟩, ?_, rfl⟩
+        refine ⟨hw.1, ?_, ?_⟩
         · simp only [List.map_append, List.length_append, List.map_cons, List.map_nil, List.length_cons,
             List.length_nil, List.range_succ, hw.2.1]
         · intro x hx
@@ -185,32 +259,14 @@ theorem step_preserve (w : World) (op : Op) (q : QueryId) (e : EnvId) (ast : Que
           · simp at hx
             subst hx
             exact env_some_lt w hw e' env he
-        · simp only [World.query]
-          rw [find_append_of_isSome]
-          · exact hq
-          · unfold World.query at hq
-            cases h' : w.queries.find? (·.1 = q) with
-            | none => rw [h'] at hq; cases hq
-            | some a => rfl
-  | apply q' v => rw [apply_pure]; exact ⟨hw, hq, rfl⟩
-  | envFind e' s v => rw [envFind_pure]; exact ⟨hw, hq, rfl⟩
+  | apply q' v => rw [apply_pure]; exact hw
+  | envFind e' s v => rw [envFind_pure]; exact hw
   | register e' name f =>
-    have hne : e ≠ e' := fun h => hop name f (by rw [h])
-    refine ⟨?_, ?_, frame_register w e' e name f hne⟩
-    · simp only [World.step]
-      split
-      · exact hw
-      · refine ⟨?_, hw.2.1, ?_⟩
-        · show (setEnv w.envs e' _).map (·.1) = List.range (setEnv w.envs e' _).length
-          rw [map_fst_setEnv, hw.1]
-          simp [setEnv]
-        · intro x hx
-          have := hw.2.2 x hx
-          simpa [setEnv] using this
-    · simp only [World.step]
-      split <;> exact hq
+    simp only [World.step]
+    split
+    · exact hw
+    · exact WF_setEnv w hw e' _
   | newEnv cfg =>
-    refine ⟨?_, hq, frame_newEnv w cfg e hw hlt⟩
     simp only [World.step]
     refine ⟨?_, hw.2.1, ?_⟩
     · simp only [List.map_append, List.length_append, List.map_cons, List.map_nil, List.length_cons,
@@ -220,20 +276,189 @@ theorem step_preserve (w : World) (op : Op) (q : QueryId) (e : EnvId) (ast : Que
       show x.2.1 < (w.envs ++ [(w.envs.length, cfg)]).length
       rw [List.length_append]
       exact Nat.lt_add_right 1 this
+  | configure e' md lo hi =>
+    simp only [World.step]
+    split
+    · exact hw
+    · exact WF_setEnv w hw e' _
+
+/-- a compiled query keeps its binding and its AST through EVERY operation -/
+theorem step_query (w : World) (op : Op) (q : QueryId) (x : EnvId × Query)
+    (hq : w.query q = some x) : (w.step op).1.query q = some x := by
+  cases op with
+  | compile e' s =>
+    cases he : w.env e' with
+    | none => simp only [World.step, he]; exact hq
+    | some env =>
+      cases hc : Impl.compile env s with
+      | error err => simp only [World.step, he, hc]; exact hq
+      | ok ast' =>
+        simp only [World.step, he, hc, World.query]
+        rw [find_append_of_isSome]
+        · exact hq
+        · unfold World.query at hq
+          cases h' : w.queries.find? (·.1 = q) with
+          | none => rw [h'] at hq; cases hq
+          | some a => rfl
+  | apply q' v => rw [apply_pure]; exact hq
+  | envFind e' s v => rw [envFind_pure]; exact hq
+  | register e' name f =>
+    simp only [World.step]
+    split <;> exact hq
+  | newEnv cfg => exact hq
+  | configure e' md lo hi =>
+    simp only [World.step]
+    split <;> exact hq
+
+/-- an existing environment keeps existing through EVERY operation -/
+theorem step_env_lt (w : World) (op : Op) (e : EnvId) (h : e < w.envs.length) :
+    e < (w.step op).1.envs.length := by
+  cases op with
+  | compile e' s =>
+    simp only [World.step]
+    split
+    · exact h
+    · split <;> exact h
+  | apply q' v => rw [apply_pure]; exact h
+  | envFind e' s v => rw [envFind_pure]; exact h
+  | register e' name f =>
+    simp only [World.step]
+    split
+    · exact h
+    · simpa [setEnv] using h
+  | newEnv cfg =>
+    simp only [World.step, List.length_append]
+    exact Nat.lt_add_right _ h
+  | configure e' md lo hi =>
+    simp only [World.step]
+    split
+    · exact h
+    · simpa [setEnv] using h
+
+/-- the only operations that can change environment `e`'s configuration are
+`register e ..` and `configure e ..` -/
+theorem step_env (w : World) (op : Op) (e : EnvId) (hw : w.WF) (hlt : e < w.envs.length)
+    (hop : ∀ name f, op ≠ .register e name f) (hcf : ∀ md lo hi, op ≠ .configure e md lo hi) :
+    (w.step op).1.env e = w.env e := by
+  cases op with
+  | compile e' s =>
+    simp only [World.step]
+    split
+    · rfl
+    · split <;> rfl
+  | apply q' v => rw [apply_pure]
+  | envFind e' s v => rw [envFind_pure]
+  | register e' name f =>
+    exact frame_register w e' e name f (fun h => hop name f (by rw [h]))
+  | newEnv cfg => exact frame_newEnv w cfg e hw hlt
+  | configure e' md lo hi =>
+    exact frame_configure w e' e md lo hi (fun h => hcf md lo hi (by rw [h]))
+
+theorem step_preserve (w : World) (op : Op) (q : QueryId) (e : EnvId) (ast : Query)
+    (hw : w.WF) (hq : w.query q = some (e, ast)) (hop : ∀ name f, op ≠ .register e name f)
+    (hcf : ∀ md lo hi, op ≠ .configure e md lo hi) :
+    (w.step op).1.WF ∧ (w.step op).1.query q = some (e, ast) ∧ (w.step op).1.env e = w.env e :=
+  ⟨step_WF w op hw, step_query w op q (e, ast) hq,
+   step_env w op e hw (query_env_lt w hw q e ast hq) hop hcf⟩
 
 theorem history_irrelevant : ∀ (w : World) (ops : List Op) (q : QueryId) (e : EnvId) (ast : Query) (v : Json),
     w.WF → w.query q = some (e, ast) →
-    (∀ op ∈ ops, ∀ name f, op ≠ .register e name f) →
+    (∀ op ∈ ops, (∀ name f, op ≠ .register e name f) ∧ (∀ md lo hi, op ≠ .configure e md lo hi)) →
     ((w.run ops).step (.apply q v)).2 = (w.step (.apply q v)).2 := by
   intro w ops
   induction ops generalizing w with
   | nil => intros; rfl
   | cons op ops ih =>
     intro q e ast v hw hq hops
-    obtain ⟨hw', hq', he'⟩ := step_preserve w op q e ast hw hq (hops op (List.mem_cons_self ..))
+    obtain ⟨hw', hq', he'⟩ := step_preserve w op q e ast hw hq
+      (hops op (List.mem_cons_self ..)).1 (hops op (List.mem_cons_self ..)).2
     show (((w.step op).1.run ops).step (.apply q v)).2 = _
     rw [ih (w.step op).1 q e ast v hw' hq' (fun o ho => hops o (List.mem_cons_of_mem _ ho))]
     exact apply_out_congr _ _ q v e ast hq' hq he'
+
+/-! ### histories with reconfiguration -/
+
+theorem run_WF (w : World) (ops : List Op) (hw : w.WF) : (w.run ops).WF := by
+  induction ops generalizing w with
+  | nil => exact hw
+  | cons op ops ih => exact ih (w.step op).1 (step_WF w op hw)
+
+theorem run_query (w : World) (ops : List Op) (q : QueryId) (x : EnvId × Query)
+    (hq : w.query q = some x) : (w.run ops).query q = some x := by
+  induction ops generalizing w with
+  | nil => exact hq
+  | cons op ops ih => exact ih (w.step op).1 (step_query w op q x hq)
+
+theorem run_env_lt (w : World) (ops : List Op) (e : EnvId) (h : e < w.envs.length) :
+    e < (w.run ops).envs.length := by
+  induction ops generalizing w with
+  | nil => exact h
+  | cons op ops ih => exact ih (w.step op).1 (step_env_lt w op e h)
+
+theorem env_isSome_of_lt (w : World) (hw : w.WF) (e : EnvId) (h : e < w.envs.length) :
+    ∃ env, w.env e = some env := by
+  have := find_fst_isSome w.envs e hw.1 h
+  unfold World.env
+  cases h' : w.envs.find? (·.1 = e) with
+  | none => rw [h'] at this; cases this
+  | some a => exact ⟨a.2, rfl⟩
+
+/-- a bound query's environment still exists after any history -/
+theorem run_env_exists (w : World) (ops : List Op) (q : QueryId) (e : EnvId) (ast : Query)
+    (hw : w.WF) (hq : w.query q = some (e, ast)) : ∃ env', (w.run ops).env e = some env' :=
+  env_isSome_of_lt _ (run_WF w ops hw) e (run_env_lt w ops e (query_env_lt w hw q e ast hq))
+
+/-- the outcome of a query after any history depends on the history only through
+the CURRENT configuration of the environment the query is bound to -/
+theorem history_configure (w : World) (ops : List Op) (q : QueryId) (e : EnvId) (ast : Query) (v : Json)
+    (env' : Env) (hq : w.query q = some (e, ast)) (he : (w.run ops).env e = some env') :
+    ((w.run ops).step (.apply q v)).2 = Out.ofOutcome (Api.queryFind env' ast v) :=
+  apply_out _ q v e ast env' (run_query w ops q (e, ast) hq) he
+
+/-- a history that neither registers on nor configures `e` leaves `e`'s configuration alone -/
+theorem run_env (w : World) (ops : List Op) (e : EnvId) (hw : w.WF) (hlt : e < w.envs.length)
+    (hops : ∀ op ∈ ops, (∀ name f, op ≠ .register e name f) ∧ (∀ md lo hi, op ≠ .configure e md lo hi)) :
+    (w.run ops).env e = w.env e := by
+  induction ops generalizing w with
+  | nil => rfl
+  | cons op ops ih =>
+    show ((w.step op).1.run ops).env e = _
+    rw [ih (w.step op).1 (step_WF w op hw) (step_env_lt w op e hlt)
+      (fun o ho => hops o (List.mem_cons_of_mem _ ho))]
+    exact step_env w op e hw hlt (hops op (List.mem_cons_self ..)).1 (hops op (List.mem_cons_self ..)).2
+
+/-- `history_irrelevant` IS the special case of `history_configure` where the
+configuration of `e` did not change -/
+theorem history_irrelevant_of_configure (w : World) (ops : List Op) (q : QueryId) (e : EnvId) (ast : Query)
+    (v : Json) (hw : w.WF) (hq : w.query q = some (e, ast))
+    (hops : ∀ op ∈ ops, (∀ name f, op ≠ .register e name f) ∧ (∀ md lo hi, op ≠ .configure e md lo hi)) :
+    ((w.run ops).step (.apply q v)).2 = (w.step (.apply q v)).2 := by
+  have hlt := query_env_lt w hw q e ast hq
+  obtain ⟨env, he⟩ := env_isSome_of_lt w hw e hlt
+  have he' : (w.run ops).env e = some env := by rw [run_env w ops e hw hlt hops, he]
+  rw [history_configure w ops q e ast v env hq he', apply_out w q v e ast env hq he]
+
+/-! ### reconfiguration takes effect immediately (nothing is cached) -/
+
+theorem configure_takes_effect (w : World) (e : EnvId) (md lo hi : Int) (q : QueryId) (ast : Query)
+    (v : Json) (env : Env) (hq : w.query q = some (e, ast)) (he : w.env e = some env) :
+    ((w.step (.configure e md lo hi)).1.step (.apply q v)).2 =
+      Out.ofOutcome (Api.queryFind { env with maxDepth := md, minIdx := lo, maxIdx := hi } ast v) :=
+  apply_out _ q v e ast _ (step_query w _ q (e, ast) hq) (configure_env w e md lo hi env he)
+
+theorem configure_takes_effect_envFind (w : World) (e : EnvId) (md lo hi : Int) (s : Str)
+    (v : Json) (env : Env) (he : w.env e = some env) :
+    ((w.step (.configure e md lo hi)).1.step (.envFind e s v)).2 =
+      Out.ofOutcome (Api.envFind { env with maxDepth := md, minIdx := lo, maxIdx := hi } s v) :=
+  envFind_out _ e s v _ (configure_env w e md lo hi env he)
+
+theorem configure_takes_effect_compile (w : World) (e : EnvId) (md lo hi : Int) (s : Str)
+    (env : Env) (he : w.env e = some env) :
+    ((w.step (.configure e md lo hi)).1.step (.compile e s)).2 =
+      (match Impl.compile { env with maxDepth := md, minIdx := lo, maxIdx := hi } s with
+       | .ok _ => Out.compiled w.queries.length
+       | .error err => Out.raised err.kind) := by
+  rw [compile_out _ e s _ (configure_env w e md lo hi env he), configure_queries]
 
 /-! ### recompile -/
 
